@@ -33,11 +33,16 @@ TRUSTED = ["numpy basic/advanced indexing of one axis is the reference for `reso
 ASSUMPTIONS = ["numpy view aliasing between a container and its slices is not modelled: the generator copies a register "
                "before assigning into it in place when it may share memory with another register",
                "dtype promotion/truncation in set_annotation and element assignment is not modelled (tokens have fixed width)"]
-LEVEL_TEXT = ("proof: index resolution (C01_resolve_sound), well-formedness of every container after every operation "
-              "and history (C01_wf_*), bond relabelling (C01_bonds_same_atoms), refinement to rows of atoms for "
-              "selection/deletion/concatenation/copy; remaining ops tied by correspondence + list-of-atoms oracle")
+LEVEL_TEXT = ("proof: index resolution equals numpy's list semantics (C01_resolve_sound); every container is well formed "
+              "after every operation and history (C01_wf_*); bonds keep connecting the same atoms under any duplicate-free "
+              "selection and concatenation offsets (C01_bonds_*); refinement of the column store to the list-of-atoms "
+              "reference model Spec, results and errors, for getitem (all index kinds, 1-D and 2-D), setitem (atom and "
+              "model), deletion, stack, repeat, from_template, array, annotation edits, setters, copy, and the combined "
+              "step/history theorems C01_refines / C01_refines_history. PARTIAL: the refinement is not proved for "
+              "`concatenate` and for the `==` observation (predicate Covered); these two are tied by the op-by-op "
+              "correspondence and the independent list-of-atom-objects oracle only")
 LEVEL_NOTE = "numpy indexing trusted as oracle for resolve; aliasing (views) excluded; tokens opaque"
-TECHNIQUE = "Lean 4 proof (invariant + refinement over an executable container model) + correspondence"
+TECHNIQUE = "Lean 4 proof (invariant + data refinement column store -> list of atoms, op by op) + correspondence"
 
 MAND = ["chain_id", "res_id", "ins_code", "res_name", "hetero", "atom_name", "element"]
 MAND_T = {"chain_id": "s", "res_id": "i", "ins_code": "s", "res_name": "s", "hetero": "b", "atom_name": "s", "element": "s"}
